@@ -88,6 +88,12 @@ M = {
  "C11-w3m2": ("sortAndDedup compares neighbours field-wise without hasPlus; in-place compaction loses the X+ entry", "allowed list holding both X and X+ (non-GNU), expression needing the '+' entry"),
  "C15-w3m1": ("exception tokens accepted only when the lexeme equals the exception id; fall-through reports with a stale offset", "an exception id carrying -only / -or-later after WITH behind an earlier rewrite"),
  "C15-w3m2": ("-or-later rewrite applied with ReplaceAll to the text still ahead, offset bookkeeping unchanged", "the same non-listed X-or-later twice before an unknown id"),
+ "C12-w3m1": ("parseLicense folds 'ends in -or-later' and 'a + follows' into if / else-if: a '+' behind a token ending in -or-later is no longer consumed", "a GNU-family id whose -or-later form is listed, written with an explicit '+', e.g. GPL-2.0-or-later+ WITH <exception>"),
+ "C12-w3m2": ("stringsToNodes fast path for bare known ids uses licenseLookup, which also answers for the exception list", "a bare exception id as an entry of the allowed list"),
+ "C13-w3m1": ("scan-error offsets go through a helper that also log.Printf's when more than 9 bytes were removed by rewrites", ">= 2 rewritten -or-later ids followed by a scanner error: output on stderr"),
+ "C13-w3m2": ("stringsToNodes parses lists of >= 256 entries in goroutine batches and returns the first error received", ">= 256 entries with two different bad entries in different batches: which error comes back depends on timing"),
+ "C14-w3m1": ("expandAnd fast path for plain AND chains calls left().andTerms() twice", "a conjunction parenthesised to the left at every level: work doubles per level"),
+ "C14-w3m2": ("the -or-later rewrite appends the rest twice when a literal '+' follows", "two non-GNU X-or-later+ spellings in one expression: scanning never terminates"),
 }
 
 def status(r):
